@@ -92,6 +92,31 @@ where G: GraphRef + NodeCompactIndexable + IntoEdgeReferences + IntoNodeIdentifi
     })
 }
 
+fn q_mst<G>(g: G, q: &GOp) -> Option<Vec<String>>
+where G: GraphRef + petgraph::visit::IntoNodeReferences + IntoEdgeReferences + IntoEdges + NodeIndexable + Data<EdgeWeight = i64>, G::NodeWeight: Clone + WAsI64 {
+    use petgraph::data::Element;
+    let collect = |it: &mut dyn Iterator<Item = Element<G::NodeWeight, i64>>| -> Vec<String> {
+        let (mut ns, mut es) = (Vec::new(), Vec::new());
+        let mut seen_edge = false;
+        for el in it {
+            match el {
+                Element::Node { weight } => { if seen_edge { ns.push(-777); } ns.push(weight.as_i64()); }
+                Element::Edge { source, target, weight } => { seen_edge = true; es.extend_from_slice(&[source as i64, target as i64, weight]); }
+            }
+        }
+        vec![line("msn", &ns), line("mse", &es)]
+    };
+    Some(match q.0.as_str() {
+        "kruskal" => collect(&mut algo::min_spanning_tree(g)),
+        "prim" => collect(&mut algo::min_spanning_tree_prim(g)),
+        _ => return None,
+    })
+}
+
+pub trait WAsI64 { fn as_i64(&self) -> i64; }
+impl WAsI64 for u32 { fn as_i64(&self) -> i64 { *self as i64 } }
+impl WAsI64 for () { fn as_i64(&self) -> i64 { 0 } }
+
 /// all-pairs distances over the dumped out-lists (for building admissible heuristics); None = unreachable
 fn dist_matrix(ops: &[GOp], bound: usize) -> Vec<Vec<Option<i64>>> {
     let mut d = vec![vec![None; bound]; bound];
@@ -108,10 +133,17 @@ fn dist_matrix(ops: &[GOp], bound: usize) -> Vec<Vec<Option<i64>>> {
     d
 }
 
-fn gen_queries(stream: &str, r: &mut Rng, ids: &[usize], bound: usize, ncount: usize, ops: &[GOp], compact: bool) -> Vec<GOp> {
+fn gen_queries(stream: &str, r: &mut Rng, ids: &[usize], bound: usize, ncount: usize, ops: &[GOp], compact: bool, nodew: &[i64], directed: bool) -> Vec<GOp> {
     let mut qs: Vec<GOp> = Vec::new();
-    if ids.is_empty() { return qs; }
+    if ids.is_empty() && stream != "C12" { return qs; }
     let pick = |r: &mut Rng| -> i64 { ids[r.below(ids.len())] as i64 };
+    if stream == "C12" {
+        // the element stream starts with the node weights in node_references order: passed along for the model
+        let nw: Vec<i64> = nodew.to_vec();
+        qs.push(("kruskal".into(), nw.clone()));
+        if !directed { qs.push(("prim".into(), nw)); }
+        return qs;
+    }
     if stream == "C10" {
         let dm = dist_matrix(ops, bound);
         for _ in 0..2 { qs.push(("dijkstra".into(), vec![pick(r), -1])); }
@@ -154,9 +186,10 @@ macro_rules! run_w {
         let (hdr, ops) = dump_view_out(g, $eid, $ecount, $ebound, &[$enc as i64]);
         emit_view($out, $id, &hdr, &ops);
         let ids: Vec<usize> = g.node_identifiers().map(|x| NodeIndexable::to_index(&g, x)).collect();
-        let qs = gen_queries($stream, $r, &ids, NodeIndexable::node_bound(&g), NodeIndexable::node_bound(&g), &ops, $compact);
+        let nodew: Vec<i64> = petgraph::visit::IntoNodeReferences::node_references(g).map(|n| WAsI64::as_i64(petgraph::visit::NodeRef::weight(&n))).collect();
+        let qs = gen_queries($stream, $r, &ids, NodeIndexable::node_bound(&g), NodeIndexable::node_bound(&g), &ops, $compact, &nodew, hdr[0] == 1);
         for q in &qs {
-            let res = catch_unwind(AssertUnwindSafe(|| q_cost(g, q).or_else(|| q_float(gf, q)).or_else(|| fw_q!($compact, g, q))));
+            let res = catch_unwind(AssertUnwindSafe(|| q_cost(g, q).or_else(|| q_float(gf, q)).or_else(|| fw_q!($compact, g, q)).or_else(|| q_mst(g, q))));
             answer($out, q, res);
         }
         $out.end_case();
@@ -184,10 +217,11 @@ pub fn run_enc(stream: &str, id: usize, a: &AbsGraph, enc: usize, r: &mut Rng, o
 }
 
 pub fn gen(stream: &str, seed: u64, n: usize, out: &mut Out) {
-    let mut r = Rng::new(seed ^ if stream == "C10" { 0xC10 } else { 0xC11 });
+    let mut r = Rng::new(seed ^ match stream { "C10" => 0xC10, "C11" => 0xC11, _ => 0xC12 });
     for id in 0..n {
         let simple = r.chance(45);
-        let mut a = if stream == "C10" { gen_abs(&mut r, 8, simple, true, 0, 9) } else { gen_abs(&mut r, 8, simple, true, -6, 9) };
+        let mut a = match stream { "C10" => gen_abs(&mut r, 8, simple, true, 0, 9), "C11" => gen_abs(&mut r, 8, simple, true, -6, 9), _ => gen_abs(&mut r, 8, simple, true, 0, 5) };
+        if stream == "C12" && r.chance(60) { a.directed = false; }
         if stream == "C11" && id % 5 == 0 {
             // acyclic with exponentially spread negative costs: the family on which a LIFO work list over-visits
             let n = 7 + r.below(5);
